@@ -253,7 +253,49 @@ impl Matcher {
         }
         merged.push(current);
 
-        merged
+        Self::coalesce_same_day_buys(merged)
+    }
+
+    /// Per TCGA92/S105(1)(a) all acquisitions of a security on one day are a single
+    /// transaction, whether or not their lines are adjacent: fold every BUY into the
+    /// first BUY of the same ticker on that date.
+    fn coalesce_same_day_buys(transactions: Vec<GbpTransaction>) -> Vec<GbpTransaction> {
+        let mut out: Vec<GbpTransaction> = Vec::with_capacity(transactions.len());
+
+        for next in transactions {
+            if let Operation::Buy {
+                amount: next_amount,
+                price: next_price,
+                fees: next_fees,
+            } = &next.operation
+                && let Some(GbpTransaction {
+                    operation:
+                        Operation::Buy {
+                            amount,
+                            price,
+                            fees,
+                        },
+                    ..
+                }) = out
+                    .iter_mut()
+                    .rev()
+                    .take_while(|tx| tx.date == next.date)
+                    .find(|tx| {
+                        tx.ticker == next.ticker && matches!(tx.operation, Operation::Buy { .. })
+                    })
+            {
+                let total_cost = (*amount * *price) + (*next_amount * *next_price);
+                *amount += *next_amount;
+                if *amount != Decimal::ZERO {
+                    *price = total_cost / *amount;
+                }
+                *fees += *next_fees;
+                continue;
+            }
+            out.push(next);
+        }
+
+        out
     }
 
     fn compute_cost_offsets(
